@@ -290,8 +290,9 @@ def check_programs(chk):
             ("client_api/grpc+rest", apis.client_api(), None, "transport=grpc+rest"),
             ("paging_api/grpc", apis.paging_api(), None, "transport=grpc"),
             ("unversioned-package", unversioned_api(), None, "transport=grpc"),
-            ("three-files+dep", two_file_api(), ["google/example/tf/v1/a.proto", "google/example/tf/v1/b_c.proto",
-                                                 "google/example/tf/v1/b.c.proto"], "transport=rest,unknown-opt=1,python-gapic-bogus=2")):
+            ("four-files+dep", two_file_api(), ["google/example/tf/v1/a.proto", "google/example/tf/v1/b_c.proto",
+                                                "google/example/tf/v1/b.c.proto", "google/example/tf/v1/svc_only.proto"],
+             "transport=rest,unknown-opt=1,python-gapic-bogus=2")):
         # expectations are computed from the descriptors BEFORE generation (API.build renames fd.name in place)
         import keyword
         all_names = [m.DESCRIPTOR.name for m in gen.DEP_MODS] + [fb.f.name for fb in files]
@@ -307,8 +308,9 @@ def check_programs(chk):
             used.add(full)
             if nm in targets and nm in by_name:
                 f_ = by_name[nm]
-                if f_.message_type or f_.enum_type:
-                    exp_types.append(stem + ".py")
+                # exactly one types module per target proto file -- also for a file that declares only a service
+                # (its module holds an empty manifest, it is not an "empty module")
+                exp_types.append(stem + ".py")
                 exp_svcs += [_snake(s_.name) for s_ in f_.service]
         exp_types, exp_svcs = sorted(exp_types), sorted(exp_svcs)
         g = gen.generate(files, parameter=param, to_generate=to_gen)
@@ -372,7 +374,11 @@ def two_file_api():
     b.method(s, "Get", "B", "A", http=("get", "/v1/b"))
     s2 = b.service("SvcTwo")
     b.method(s2, "Put", "B", "A", http=("put", "/v1/b", "*"))
-    return [dep, a, bc, b]
+    # a target file that declares nothing but a service (its messages live in a sibling file)
+    so = gen.FileBuilder("google/example/tf/v1/svc_only.proto", "google.example.tf.v1", deps=[a.f.name])
+    s3 = so.service("SvcThree")
+    so.method(s3, "Peek", "A", "A", http=("get", "/v1/peek"))
+    return [dep, a, bc, b, so]
 
 
 def body(chk: core.Check):
